@@ -7,13 +7,15 @@
 
     Atoms (re-derived from the current code, after fix b463b1a):
       subscribe      [M] subs := append(subs, s)            in place iff len < cap, else a fresh array
+      subscribeNil   the same for a Subscription whose OnNext is nil (zero value): registered, never invoked
       unsubBegin s   call Unsubscribe(s)
       unsubStep      [M] first i with subs[i] = s: subs := fresh copy without index i (fixed = true)
                          / append(subs[:i], subs[i+1:]...) in place (fixed = false, the pre-fix code);
                          no match: Unsubscribe returns
       pubBegin v     [M] snapshot := subs  (header copy: same array, fixed length)
-      deliver        read snapshot[k] FROM THE ARRAY AS IT IS NOW, k++, then OnNext(v) directly
-                     (pushes a callback frame on the same goroutine) or Post to the handler (subOn)
+      deliver        read snapshot[k] FROM THE ARRAY AS IT IS NOW, k++; `if s.OnNext != nil`: OnNext(v) directly
+                     (pushes a callback frame on the same goroutine) or Post to the handler (subOn);
+                     a subscription without OnNext is passed over (the loop goes on)
       cbReturn       the callback returns
       pubEnd         loop finished, Publish returns
       setSubOn       SubscribeOn(h)
@@ -93,6 +95,7 @@ structure State where
   nextId : Nat
   nextPid : Nat
   subOn : Bool
+  silent : Nat → Bool                -- the subscription's OnNext field is nil
   stacks : Nat → List Frame          -- per goroutine, top first
   mailbox : List (Nat × Nat × Int)   -- posted, not yet run deliveries (pid, sid, v), oldest first
   unsubDone : List Nat               -- ghost
@@ -117,11 +120,12 @@ def upd {β} (f : Nat → β) (a : Nat) (b : β) : Nat → β := fun x => if x =
 
 /-- the nil slice: array 0 is the empty array -/
 def init : State :=
-  { heap := [[]], subs := ⟨0, 0, 0⟩, nextId := 1, nextPid := 0, subOn := false, stacks := fun _ => [],
+  { heap := [[]], subs := ⟨0, 0, 0⟩, nextId := 1, nextPid := 0, subOn := false, silent := fun _ => false, stacks := fun _ => [],
     mailbox := [], unsubDone := [], ended := [], log := [], hlog := [] }
 
 inductive Act
   | subscribe (t : Nat)
+  | subscribeNil (t : Nat)
   | unsubBegin (t : Nat) (s : Nat)
   | unsubStep (t : Nat)
   | pubBegin (t : Nat) (v : Int)
@@ -144,6 +148,11 @@ def step (fixed : Bool) (grow : Nat → Nat) (s : State) : Act → Option State
     if scriptPos (s.stacks t) then
       let (hp, h) := appendSub grow s.heap s.subs s.nextId
       some { s with heap := hp, subs := h, nextId := s.nextId + 1 }
+    else none
+  | .subscribeNil t =>
+    if scriptPos (s.stacks t) then
+      let (hp, h) := appendSub grow s.heap s.subs s.nextId
+      some { s with heap := hp, subs := h, nextId := s.nextId + 1, silent := upd s.silent s.nextId true }
     else none
   | .unsubBegin t x =>
     if scriptPos (s.stacks t) ∧ 0 < x ∧ x < s.nextId then
@@ -169,6 +178,7 @@ def step (fixed : Bool) (grow : Nat → Nat) (s : State) : Act → Option State
     | .pub f :: rest =>
       if f.k < f.h.len then
         let c := readCell s.heap f.h f.k
+        if s.silent c then some { s with stacks := upd s.stacks t (.pub { f with k := f.k + 1 } :: rest) } else
         let f' := { f with k := f.k + 1, dl := f.dl ++ [c] }
         if s.subOn then
           some { s with stacks := upd s.stacks t (.pub f' :: rest),
